@@ -43,34 +43,68 @@ func C10(p *Prog, r *Run) {
 	isSco := func(t *Term) bool { return t != nil && t.Op == "field" && t.Obj == sco }
 	isEO := func(t *Term) bool { return t != nil && t.Op == "field" && t.Obj == eo }
 	isQuotaOrReserve := func(t *Term) bool { return isSco(t) || isEO(t) }
-	// classify the duplicate call sites of reproduce
-	var cloneCall, superCall ssa.CallInstruction
+	// classify the ways reproduce duplicates the genome of Organisms[0]: a duplicate call seen under one case of its
+	// reaching condition (GuardCases: a call behind `super || (!done && quota > 5)` - the body the two champion
+	// branches were merged into - is reached in two cases, a call behind a plain if-chain in one)
+	var clones, supers []c10Copy
+	repLoops := Loops(rep)
 	for _, c := range CallsTo(rep, dup) {
 		recvT := tm.Of(c.Common().Args[0]).String()
 		if recvT != "recv.Organisms[0].Genotype" {
 			continue
 		}
-		isSuper := false
+		var within map[*ssa.BasicBlock]bool
+		if l := InnermostLoop(repLoops, c.Block()); l != nil {
+			within = l.Blocks
+		}
+		cases, _ := GuardCases(c.Block(), within)
+		dominating := map[Guard]bool{}
 		for _, g := range guardsResolved(c.Block()) {
-			// any spelling of "clones are pending": sco > 0, 0 < sco, sco >= 1, !(sco <= 0) ...
-			if f, ok := c10FactOf(tm, g, isSco); ok && isSco(f.TX) {
-				if lo, has, _, _ := f.constBounds(); has && lo >= 1 {
-					isSuper = true
+			dominating[Guard{g.Cond, g.True, nil}] = true
+		}
+		for _, k := range cases {
+			cp := c10Copy{call: c, guards: k, within: within}
+			for _, g := range k {
+				if !dominating[Guard{g.Cond, g.True, nil}] {
+					cp.own = append(cp.own, g)
+				}
+				// any spelling of "clones are pending": sco > 0, 0 < sco, sco >= 1, !(sco <= 0) ...
+				if f, ok := c10FactOf(tm, g, isSco); ok && isSco(f.TX) {
+					if lo, has, _, _ := f.constBounds(); has && lo >= 1 {
+						cp.super = true
+					}
 				}
 			}
+			if cp.super {
+				supers = append(supers, cp)
+			} else {
+				clones = append(clones, cp)
+			}
 		}
-		if isSuper {
-			superCall = c
-		} else {
-			cloneCall = c
+	}
+	for i := range clones {
+		clones[i].label = "clone"
+		if i > 0 {
+			clones[i].label = fmt.Sprintf("clone#%d", i+1)
+		}
+	}
+	for i := range supers {
+		supers[i].label = "super-champ"
+		if i > 0 {
+			supers[i].label = fmt.Sprintf("super-champ#%d", i+1)
 		}
 	}
 
-	r.Rule("C10.1", "clone branch: reachable whenever ExpectedOffspring > 5, no clone made yet and no super-champion offspring pending; guarded by nothing else", func() {
-		if cloneCall == nil {
-			r.Bad("clone-branch", p.Pos(rep.Pos()), "reproduce has no branch that duplicates the genome of Organisms[0] outside the super-champion case: the species champion is not preserved")
-			return
+	// c10CloneBranch judges one case in which the champion's genome is duplicated outside the super-champion turn.
+	c10CloneBranch := func(cp c10Copy, ci int) {
+		cloneCall := cp.call
+		sfx := ""
+		if ci > 0 {
+			sfx = fmt.Sprintf("#%d", ci+1)
 		}
+		// inCase: the block executes only in this case (the call's block is shared by several cases when the
+		// branches were merged)
+		inCase := func(b *ssa.BasicBlock) bool { return len(cp.own) == 0 || mustBeInCase(b, cp.own, cp.within) }
 		okEO, okSuper := false, false
 		var flag *ssa.Phi
 		var pending *pendingFlag // flag has positive polarity ("clone still to be made")
@@ -91,7 +125,7 @@ func C10(p *Prog, r *Run) {
 			}
 		}
 		hoisted := map[ssa.Value]bool{} // conditions that are entry values of the pending flag
-		work := guardsResolved(cloneCall.Block())
+		work := append([]Guard{}, cp.guards...)
 		for len(work) > 0 {
 			g := work[0]
 			work = work[1:]
@@ -145,7 +179,7 @@ func C10(p *Prog, r *Run) {
 					// `pending := <init>` before the loop, `if pending { clone; pending = false }`: the guard
 					// "pending is true" is equivalent to "<init> was true and no clone was made yet"
 					// (analysePendingFlag); the init values are judged like conditions of the branch itself.
-					pf := analysePendingFlag(ph, cloneCall.(ssa.Instruction), InnermostLoop(Loops(rep), cloneCall.Block()))
+					pf := analysePendingFlag(ph, cloneCall.(ssa.Instruction), InnermostLoop(Loops(rep), cloneCall.Block()), inCase)
 					flag, pending = ph, &pf
 					if pf.Shape {
 						var inits []Guard
@@ -167,18 +201,18 @@ func C10(p *Prog, r *Run) {
 				extra = append(extra, gt.String()+"="+fmt.Sprint(g.True))
 			}
 		}
-		r.Check(okEO, "clone-branch.threshold", p.Pos(cloneCall.Pos()), "guarded by ExpectedOffspring > c with c <= 5", "the champion clone is not made for every species with more than five expected offspring")
-		r.Check(okSuper, "clone-branch.after-super", p.Pos(cloneCall.Pos()), "the super-champion branch precedes the clone branch", "the clone branch is not the alternative of the super-champion branch")
-		r.Check(len(extra) == 0, "clone-branch.no-extra-condition", p.Pos(cloneCall.Pos()), "no further condition", "the champion clone additionally depends on: "+strings.Join(extra, "; ")+" — for some species with a quota above five no unmodified copy of the champion is produced")
+		r.Check(okEO, "clone-branch.threshold"+sfx, p.Pos(cloneCall.Pos()), "guarded by ExpectedOffspring > c with c <= 5", "the champion clone is not made for every species with more than five expected offspring")
+		r.Check(okSuper, "clone-branch.after-super"+sfx, p.Pos(cloneCall.Pos()), "the super-champion branch precedes the clone branch", "the clone branch is not the alternative of the super-champion branch")
+		r.Check(len(extra) == 0, "clone-branch.no-extra-condition"+sfx, p.Pos(cloneCall.Pos()), "no further condition", "the champion clone additionally depends on: "+strings.Join(extra, "; ")+" — for some species with a quota above five no unmodified copy of the champion is produced")
 		// the done flag: false initially, set true only inside the branch
 		if flag == nil {
-			r.Bad("clone-branch.flag", p.Pos(cloneCall.Pos()), "no once-only flag guards the clone: every offspring of a sizeable species would be a clone")
+			r.Bad("clone-branch.flag"+sfx, p.Pos(cloneCall.Pos()), "no once-only flag guards the clone: every offspring of a sizeable species would be a clone")
 		} else if pending != nil {
 			why := pending.Why
 			if pending.Shape && pending.Clear == 0 {
 				why = "the flag is never cleared"
 			}
-			r.Check(pending.Shape && pending.Clear > 0, "clone-branch.flag", p.Pos(cloneCall.Pos()), "the once-only flag is armed before the loop and cleared only after the clone was made", "the flag that enables the champion clone can become false without a clone having been made: "+why)
+			r.Check(pending.Shape && pending.Clear > 0, "clone-branch.flag"+sfx, p.Pos(cloneCall.Pos()), "the once-only flag is armed before the loop and cleared only after the clone was made", "the flag that enables the champion clone can become false without a clone having been made: "+why)
 		} else {
 			okFlag := true
 			var visit func(ph *ssa.Phi, depth int)
@@ -193,7 +227,9 @@ func C10(p *Prog, r *Run) {
 					case *ssa.Const:
 						if IsConstBool(x, true) {
 							pred := ph.Block().Preds[i]
-							if !(cloneCall.Block() == pred || cloneCall.Block().Dominates(pred)) {
+							// set after the duplicate call and only in this case (a shared body sets it under the
+							// test that tells the cases apart)
+							if !(cloneCall.Block() == pred || cloneCall.Block().Dominates(pred)) || !inCase(pred) {
 								okFlag = false
 							}
 						}
@@ -205,15 +241,23 @@ func C10(p *Prog, r *Run) {
 				}
 			}
 			visit(flag, 0)
-			r.Check(okFlag, "clone-branch.flag", p.Pos(cloneCall.Pos()), "the once-only flag starts false and is set only after the clone was made", "the flag that suppresses the champion clone can become true without a clone having been made")
+			r.Check(okFlag, "clone-branch.flag"+sfx, p.Pos(cloneCall.Pos()), "the once-only flag starts false and is set only after the clone was made", "the flag that suppresses the champion clone can become true without a clone having been made")
+		}
+	}
+	r.Rule("C10.1", "clone branch: reachable whenever ExpectedOffspring > 5, no clone made yet and no super-champion offspring pending; guarded by nothing else", func() {
+		if len(clones) == 0 {
+			r.Bad("clone-branch", p.Pos(rep.Pos()), "reproduce has no branch that duplicates the genome of Organisms[0] outside the super-champion case: the species champion is not preserved")
+			return
+		}
+		// every case in which the champion is duplicated outside the super-champion turn is judged on its own
+		for ci := range clones {
+			c10CloneBranch(clones[ci], ci)
 		}
 	})
 
 	r.Rule("C10.2", "pristine clone: duplicate of Organisms[0]'s genome, handed only to NewOrganism and appended to the babies; super-champion mutators only while more than one of its offspring is pending", func() {
-		check := func(c ssa.CallInstruction, label string, allowMut bool) {
-			if c == nil {
-				return
-			}
+		check := func(cp c10Copy) {
+			c, label, allowMut := cp.call, cp.label, cp.super
 			var genome ssa.Value
 			for _, ref := range *c.Value().Referrers() {
 				if ex, ok := ref.(*ssa.Extract); ok && ex.Index == 0 {
@@ -229,6 +273,10 @@ func C10(p *Prog, r *Run) {
 			for _, u := range calls {
 				callee := u.Common().StaticCallee()
 				r.CallSites++
+				if !cp.onCase(u) {
+					// a body shared with another case: this use is behind a test that this case fails
+					continue
+				}
 				switch {
 				case callee == newOrg:
 					orgs++
@@ -253,7 +301,7 @@ func C10(p *Prog, r *Run) {
 			for _, o := range other {
 				if fa, ok := o.(*ssa.FieldAddr); ok {
 					for _, r2 := range *fa.Referrers() {
-						if _, isSt := r2.(*ssa.Store); isSt {
+						if _, isSt := r2.(*ssa.Store); isSt && cp.onCase(r2) {
 							r.Bad(label+".field-store", p.Pos(r2.Pos()), "a field of the champion's clone is written directly")
 						}
 					}
@@ -264,10 +312,16 @@ func C10(p *Prog, r *Run) {
 			a := callArgTerms(tm, c.Common())
 			r.Check(a[0].String() == "recv.Organisms[0].Genotype", label+".source", p.Pos(c.Pos()), "clone of Organisms[0]", "the clone is made from "+a[0].String())
 		}
-		check(cloneCall, "clone", false)
-		check(superCall, "super-champ", true)
+		for _, cp := range clones {
+			check(cp)
+		}
+		for _, cp := range supers {
+			check(cp)
+		}
 		// every iteration appends exactly one baby (the clone included): see C02.2; here: the append follows the branch
-		if superCall != nil {
+		for _, cp := range supers {
+			superCall := cp.call
+			sfx := strings.TrimPrefix(cp.label, "super-champ")
 			// the counter drops by exactly one per super-champion offspring
 			n := 0
 			for _, st := range FieldStores(rep, sco) {
@@ -275,9 +329,10 @@ func C10(p *Prog, r *Run) {
 				if v.Op == "bin" && v.Name == "-" && v.Args[1].String() == "1" && v.Args[0].Op == "field" && v.Args[0].Obj == sco {
 					n++
 					dom := superCall.Block() == st.Block() || superCall.Block().Dominates(st.Block())
-					r.Check(dom, "super-champ.decrement.place", p.Pos(st.Pos()), "decremented in the super-champion branch", "superChampOffspring is decremented outside the super-champion branch")
+					r.Check(dom, "super-champ.decrement.place"+sfx, p.Pos(st.Pos()), "decremented in the super-champion branch", "superChampOffspring is decremented outside the super-champion branch")
 					// on every non-error path of the branch
-					path := FindPath(p, PathQuery{Fn: rep, StartAfter: superCall.(ssa.Instruction),
+					// (searched under the outcomes that make this the super-champion turn when the body is shared)
+					path := FindPath(p, PathQuery{Fn: rep, StartAfter: superCall.(ssa.Instruction), Assume: cp.own,
 						Target: func(in ssa.Instruction) bool {
 							if c, ok := in.(ssa.CallInstruction); ok {
 								if b, ok := c.Common().Value.(*ssa.Builtin); ok && b.Name() == "append" {
@@ -287,12 +342,12 @@ func C10(p *Prog, r *Run) {
 							return false
 						},
 						Avoid: func(in ssa.Instruction) bool { return in == ssa.Instruction(st) }, Explored: &r.PathsExplored})
-					r.Check(path == nil, "super-champ.decrement.always", p.Pos(st.Pos()), "every super-champion offspring consumes one unit", "a super-champion offspring can be produced without decrementing the counter: the exact copy (last unit) is never reached", path...)
+					r.Check(path == nil, "super-champ.decrement.always"+sfx, p.Pos(st.Pos()), "every super-champion offspring consumes one unit", "a super-champion offspring can be produced without decrementing the counter: the exact copy (last unit) is never reached", path...)
 				} else {
-					r.Bad("super-champ.counter-write", p.Pos(st.Pos()), "superChampOffspring is set to "+v.String()+" during reproduction")
+					r.Bad("super-champ.counter-write"+sfx, p.Pos(st.Pos()), "superChampOffspring is set to "+v.String()+" during reproduction")
 				}
 			}
-			r.Check(n == 1, "super-champ.decrement", p.Pos(rep.Pos()), "exactly one decrement site", fmt.Sprintf("%d decrement sites of superChampOffspring", n))
+			r.Check(n == 1, "super-champ.decrement"+sfx, p.Pos(rep.Pos()), "exactly one decrement site", fmt.Sprintf("%d decrement sites of superChampOffspring", n))
 		}
 	})
 
@@ -367,7 +422,10 @@ func C10(p *Prog, r *Run) {
 					why = "replaced by the constant " + vt.Name
 				}
 			default:
-				why = "set to " + vt.String()
+				// the same updates made on a local and stored once (`f := org.Fitness; if .. {f *= 0.01}; if f < 0
+				// {f = 0.0001}; org.Fitness = f / n`, or the arithmetic moved into a helper): the stored value is
+				// judged as a composition of such steps
+				okM, why = c10ScaledFitness(ta, st.Val, self)
 			}
 			r.Check(okM, "adjustFitness.order-preserving", p.Pos(st.Pos()), "fitness update keeps the order of distinct positive values ("+why+")",
 				"before the species is sorted an organism's fitness is "+why+": distinct positive fitness values can become equal (or change order), so Organisms[0] - the organism that is cloned - need not be the fittest")
@@ -506,7 +564,7 @@ func C10(p *Prog, r *Run) {
 		r.c10ReserveWithinQuota(rep)
 	})
 	r.Rule("C10.8", "the offspring loop gives the champion its turn and delivers the copy: it runs ExpectedOffspring times (count from 0 in steps of one, quota not written meanwhile), the organism wrapping the copy is appended to the babies on every continuing path, the list only grows and is what reproduce returns", func() {
-		r.c10OffspringLoop(rep, tm, newOrg, map[string]ssa.CallInstruction{"clone": cloneCall, "super-champ": superCall})
+		r.c10OffspringLoop(rep, tm, newOrg, append(append([]c10Copy{}, clones...), supers...))
 	})
 	_ = token.ADD
 }
